@@ -16,7 +16,7 @@ PY
 (cd "$D/w" && GOFLAGS=-mod=mod GOPROXY=off GOSUMDB=off GOTOOLCHAIN=local go build ./... 2>&1 | head -3)
 cp -r /verif/evidence "$D/evidence.bak"
 for p in "$@"; do
-  GOMAXPROCS=8 /verif/bin/verif-sa check --property "$p" --repo "$D/w" | grep "VIOLATION rule\|UNDECIDED rule\|SUMMARY" | cut -c1-330
+  GOMAXPROCS=8 ${VERIF_BIN:-/verif/bin/verif-sa} check --property "$p" --repo "$D/w" | grep "VIOLATION rule\|UNDECIDED rule\|SUMMARY" | cut -c1-330
 done
 rm -rf /verif/evidence; mv "$D/evidence.bak" /verif/evidence
 git -C /repo worktree remove --force "$D/w"; rm -rf "$D"
